@@ -276,15 +276,17 @@ def corpus():
 def case_worker(items):
     """items: list of (label, doc, open_ids).  Runs C (oracle) and B (tie) for each."""
     open_ids = items[0][2] if items else set()
-    res = {"n": 0, "viol": [], "nviol": 0, "known": {}, "ties": [], "nties": 0, "codec_bad": [], "model_err": {}, "model_declined": 0, "real_err": 0}
+    res = {"n": 0, "viol": [], "nviol": 0, "known": {}, "ties": [], "nties": 0, "codec_bad": [], "model_err": {}, "model_declined": 0, "real_err": 0, "dom": {}, "outside": []}
     try:
         drv = core.Driver() if core.DRIVER_BIN.exists() else None
     except core.Infra:
         drv = None
     model = codec = None
     if drv is not None and os.environ.get("C05_NO_MODEL") != "1":
-        ans = drv.results([{"op": "doc.roundtrip", "d": d} for _, d, _ in items] + [{"op": "doc.codec", "d": d} for _, d, _ in items])
-        model, codec = ans[: len(items)], ans[len(items):]
+        n_it = len(items)
+        ans = drv.results([{"op": "doc.roundtrip", "d": d} for _, d, _ in items] + [{"op": "doc.codec", "d": d} for _, d, _ in items]
+                          + [{"op": "doc.hyps", "d": d} for _, d, _ in items])
+        model, codec, hyps = ans[:n_it], ans[n_it: 2 * n_it], ans[2 * n_it:]
     for i, (label, d, _) in enumerate(items):
         res["n"] += 1
         tie_only = label.startswith("quirk:")
@@ -304,6 +306,21 @@ def case_worker(items):
                     res["viol"].append({"what": fails[0]["what"], "label": label, "failures": fails[:4], "input": pristine})
         if model is None:
             continue
+        # the hypotheses of the Lean theorems on this document (driver: validB_iff ties `valid` to Valid)
+        hy = hyps[i]
+        if isinstance(hy, dict) and "valid" in hy:
+            inside = hy["valid"] and hy["ordered"] and hy["exitsByCats"] and hy["untyped"] and hy["plain"]
+            res["dom"]["render_load domain" if inside else "outside render_load domain"] = res["dom"].get("render_load domain" if inside else "outside render_load domain", 0) + 1
+            if hy["valid"] and hy["wired"] and hy["untyped"]:
+                res["dom"]["render_load_idem domain"] = res["dom"].get("render_load_idem domain", 0) + 1
+            if inside and not hy["lossless"]:
+                res["nties"] += 1
+                res["ties"].append({"label": label, "what": "model contradicts render_load on a document inside its hypotheses", "hyps": hy})
+            if label.startswith("seed="):
+                need = ["valid", "wired"] + [k for k, f in (("untyped", "a"), ("plain", "b"), ("ordered", "c"), ("exitsByCats", "d")) if f in open_ids]
+                bad = [k for k in need if not hy[k]]
+                if bad:
+                    res["outside"].append({"label": label, "fails": bad, "doc": pristine if len(json.dumps(pristine)) < 3000 else None})
         # B: codec self-test and model vs real output
         cz = codec[i]
         if isinstance(cz, dict) and "__error__" in cz or isinstance(cz, dict) and "unsupported" in cz:
@@ -423,6 +440,8 @@ def run(ck: core.Check):
     open_ids = {f["id"][-1] for f in ck.findings if f.get("status") == "open" and f["id"].startswith("F-C05-")}
     avoid = frozenset(open_ids)
 
+    outside_domain = []
+
     def fold(results, kind):
         for r in results:
             ck.count(kind, r["n"])
@@ -443,6 +462,9 @@ def run(ck: core.Check):
             for k, n in r["model_err"].items():
                 ck.count("model_declined: " + k, n)
             ck.count("real_code_raised", r["real_err"])
+            for k, n in r["dom"].items():
+                ck.count(f"{kind}: {k}", n)
+            outside_domain.extend(r["outside"])
 
     # 1. corpus: all fixture files
     corp = corpus()
@@ -512,6 +534,11 @@ def run(ck: core.Check):
     for r in qres:
         ck.count("quirk.real_code_ok", r.get("quirk_real_ok", 0))
         ck.count("quirk.real_code_raises", r.get("quirk_real_raises", 0))
+
+    # generator self-check: every main-stream document must lie inside the hypotheses of the theorems
+    if outside_domain:
+        raise core.Infra("generator self-check: main-stream documents outside the proved domain (Valid/CatsWired/…): "
+                         + json.dumps(outside_domain[:2], ensure_ascii=False)[:1500])
 
     # generator self-check: the declared strata must have been reached
     need = ["gen.node.basic", "gen.node.switch", "gen.node.random", "gen.node.router_action", "gen.router.shared_category",
